@@ -51,6 +51,7 @@ type rgen struct {
 	loops  int // loop nesting
 	sb     strings.Builder
 	used   map[string]bool
+	liberal bool  // C02: control flow outside the subset is allowed (returns, break/continue and else-if chains anywhere, shadowing, assignment to := variables)
 	inject string // C02: construct to inject once ("" = none)
 	done   bool   // injected already
 }
@@ -544,6 +545,9 @@ func (g *rgen) block(ind, d int, mode blockMode) {
 	}
 	for i := 0; i < n; i++ {
 		g.maybeInject(ind, d, mode)
+		if g.liberal && g.liberalStmt(ind, d, mode) {
+			continue
+		}
 		k := g.pick(100)
 		switch {
 		case d <= 0 || k < 45:
@@ -742,4 +746,158 @@ func RandomLookalikes(seed int64, n, depth int) []*tv.Package {
 		b.add(fmt.Sprintf("randlook/s%d/%03d/%s", seed, i, g.inject), src)
 	}
 	return b.packages(fmt.Sprintf("rlk%d_", seed), "", 40)
+}
+
+// liberalStmt (C02 only): with some probability emits one statement whose control-flow shape may be
+// outside the subset — the relation checked on these programs is "rejected, or accepted and
+// equivalent", so any valid Go is a legitimate test input. Returns false if nothing was emitted.
+func (g *rgen) liberalStmt(ind, d int, mode blockMode) bool {
+	if !g.chance(30) {
+		return false
+	}
+	switch g.pick(7) {
+	case 0: // a return in the middle of any block
+		if g.chance(50) {
+			g.line(ind, "if "+g.cond(1)+" {")
+			g.line(ind+1, "return "+g.retExpr())
+			g.line(ind, "}")
+		} else {
+			g.line(ind, "if "+g.cond(1)+" {")
+			g.simpleScoped(ind + 1)
+			g.line(ind, "} else {")
+			g.line(ind+1, "return "+g.retExpr())
+			g.line(ind, "}")
+		}
+		return true
+	case 1: // else-if chain whose arms return, break, continue or fall through
+		if d <= 0 {
+			return false
+		}
+		arms := 2 + g.pick(2)
+		for a := 0; a < arms; a++ {
+			if a == 0 {
+				g.line(ind, "if "+g.cond(1)+" {")
+			} else {
+				g.line(ind, "} else if "+g.cond(1)+" {")
+			}
+			g.liberalArm(ind+1, mode)
+		}
+		if g.chance(40) {
+			g.line(ind, "} else {")
+			g.liberalArm(ind+1, mode)
+		}
+		g.line(ind, "}")
+		return true
+	case 2: // break / continue at an arbitrary position of a loop body
+		if g.loops == 0 {
+			return false
+		}
+		g.line(ind, "if "+g.cond(1)+" {")
+		g.simpleScoped(ind + 1)
+		g.line(ind+1, []string{"break", "continue"}[g.pick(2)])
+		g.line(ind, "}")
+		return true
+	case 3: // shadow a variable of an enclosing scope
+		var cands []rvar
+		for _, v := range g.vars {
+			if v.ty == tU64 && !v.loopVar {
+				cands = append(cands, v)
+			}
+		}
+		if len(cands) == 0 || d <= 0 {
+			return false
+		}
+		v := cands[g.pick(len(cands))]
+		g.line(ind, "if "+g.cond(1)+" {")
+		g.line(ind+1, v.name+" := "+g.typedExpr(tU64, 1))
+		if ms := g.varsOf(tU64, true); len(ms) > 0 {
+			m := ms[g.pick(len(ms))].name
+			g.line(ind+1, m+" = "+m+" + "+v.name)
+		} else {
+			g.line(ind+1, "_ = "+v.name)
+		}
+		g.line(ind, "}")
+		return true
+	case 4: // assignment to a := variable or a parameter
+		var cands []rvar
+		for _, v := range g.vars {
+			if v.ty == tU64 && !v.mutable && !v.loopVar {
+				cands = append(cands, v)
+			}
+		}
+		if len(cands) == 0 {
+			return false
+		}
+		v := cands[g.pick(len(cands))]
+		g.line(ind, v.name+" = "+g.e(tU64, 1))
+		return true
+	case 5: // nested if whose inner arm returns while the outer continues
+		if d <= 0 {
+			return false
+		}
+		g.line(ind, "if "+g.cond(1)+" {")
+		g.line(ind+1, "if "+g.cond(1)+" {")
+		g.liberalArm(ind+2, mode)
+		g.line(ind+1, "}")
+		g.simpleScoped(ind + 1)
+		g.line(ind, "}")
+		return true
+	case 6: // if/else where the else arm leaves and the then arm falls through (possibly shadowing)
+		g.line(ind, "if "+g.cond(1)+" {")
+		var outer []rvar
+		for _, v := range g.vars {
+			if v.ty == tU64 && !v.loopVar {
+				outer = append(outer, v)
+			}
+		}
+		ms := g.varsOf(tU64, true)
+		if len(outer) > 0 && len(ms) > 0 && g.chance(50) {
+			v := outer[g.pick(len(outer))]
+			m := ms[g.pick(len(ms))].name
+			g.line(ind+1, v.name+" := "+g.typedExpr(tU64, 1))
+			g.line(ind+1, m+" = "+m+" + "+v.name)
+		} else {
+			g.simpleScoped(ind + 1)
+		}
+		g.line(ind, "} else {")
+		g.liberalArm(ind+1, mode)
+		g.line(ind, "}")
+		return true
+	}
+	return false
+}
+
+// liberalArm: one arm of a liberal if: some statements, then return / break / continue / nothing.
+func (g *rgen) liberalArm(ind int, mode blockMode) {
+	if g.chance(60) {
+		g.simpleScoped(ind)
+	}
+	switch k := g.pick(4); {
+	case k == 0:
+		g.line(ind, "return "+g.retExpr())
+	case k == 1 && g.loops > 0:
+		g.line(ind, "break")
+	case k == 2 && g.loops > 0:
+		g.line(ind, "continue")
+	}
+}
+
+// simpleScoped emits one simple statement in its own scope bookkeeping (for arms written inline).
+func (g *rgen) simpleScoped(ind int) {
+	m := len(g.vars)
+	g.simple(ind, 1)
+	g.sinkFrom(m, ind)
+	g.vars = g.vars[:m]
+}
+
+// RandomLiberal: random programs whose control flow is not restricted to the subset (C02).
+func RandomLiberal(seed int64, n, depth int) []*tv.Package {
+	b := &builder{}
+	b.types = []string{"type Pt struct {\n\tX uint64\n\tY uint64\n}", randPrelude}
+	g := &rgen{r: rand.New(rand.NewSource(seed)), liberal: true}
+	for i := 0; i < n; i++ {
+		g.n = 0
+		b.add(fmt.Sprintf("randlib/s%d/%03d", seed, i), g.function("FN", 1+i%depth))
+	}
+	return b.packages(fmt.Sprintf("rlb%d_", seed), "", 40)
 }
